@@ -110,6 +110,28 @@ func c17Gen(t *rapid.T) c17Case {
 					}
 				}
 			}
+		case 4:
+			// a split request whose own size is over the limit although every per-slot fragment is within it
+			// (or, one step smaller, a split request just within the limit)
+			if limit > 0 {
+				klen := maxInt(6, eff/2-20)
+				if rapid.IntRange(0, 3).Draw(t, "mkwithin") == 0 {
+					klen = maxInt(6, (eff-20)/3-12)
+				}
+				name := rapid.SampledFrom([]string{"mget", "del", "mset"}).Draw(t, "mkname")
+				r := Req{Name: genCaseName(name).Draw(t, "cased")}
+				for k := 0; k < 3; k++ {
+					tag := refmodel.KeyInSlot(defaultSlots[(ri+k*5)%len(defaultSlots)], fmt.Sprintf("c0r%dk%d", ri, k))
+					key := append([]byte(tag), bytes.Repeat([]byte("m"), maxInt(0, klen-len(tag)))...)
+					r.Args = append(r.Args, key)
+					if name == "mset" {
+						r.Args = append(r.Args, Bin("v"))
+					}
+				}
+				cs.Reqs = append(cs.Reqs, r)
+				continue
+			}
+			cs.Reqs = append(cs.Reqs, Req{Name: Bin("get"), Args: []Bin{key}})
 		case 3: // a plain served neighbour
 			cs.Reqs = append(cs.Reqs, Req{Name: genCaseName("get").Draw(t, "cased"), Args: []Bin{key}})
 		default:
